@@ -1027,15 +1027,16 @@ class Planner:
         fn = r.choice(self.sw["aten"])
         op = {"op": "aten", "x": pid, "fn": fn}
         dim = r.randrange(len(shape))
+        neg = lambda d: d - len(shape) if r.random() < 0.35 else d  # the same axis, named from the end
         if fn in ("add", "eq"):
             op["k"] = r.choice([0, 1, 2, 3, 7, 15, 16, 250, 255])
         elif fn == "sum":
             op["dim"] = r.choice([None, 0, -1, dim])
         elif fn == "select":
-            op.update(dim=dim, i=r.randrange(shape[dim]))
+            op.update(dim=neg(dim), i=r.randrange(shape[dim]))
         elif fn == "slice":
             a = r.randrange(shape[dim])
-            op.update(dim=dim, a=a, n=r.randint(0, shape[dim] - a))
+            op.update(dim=neg(dim), a=a, n=r.randint(0, shape[dim] - a))
         elif fn == "reshape":
             op["shape"] = r.choice([[-1], [shape[0], -1], [-1, shape[0]], list(reversed(shape)), [1] + shape])
         elif fn == "cat":
